@@ -6,7 +6,7 @@ from mc import h_c22 as h
 PROPERTY = "C22"
 LEVEL = "model_checking"
 META = {
-    "text": "Starting from a 6-bus network that holds every reference kind (b/l/t/t3 switches, bus/line/trafo/trafo3w measurements incl. a numeric side, poly and pwl costs, an index group and a name-referenced group, ConstControl and tap controllers on load/trafo/trafo3w, tap characteristic tables and splines, result tables), every sequence of up to 3 (thorough 4 on the quick alphabet, 3 on the full one) bound create/drop/fuse/select_subnet/merge_nets/reindex/continuous-index/replace/drop-inactive operations is executed on the real net, deduplicated by a canonical state, and after every operation that returned, every reference held anywhere in the net is resolved against the table it points to; exhaustive within that bound.",
+    "text": "Starting from a 6-bus network that holds every reference kind (b/l/t/t3 switches, bus/line/trafo/trafo3w measurements incl. a numeric side, poly and pwl costs, an index group and a name-referenced group, ConstControl and tap controllers on load/trafo/trafo3w, tap characteristic tables and splines, result tables), every sequence of up to 3 bound operations from a 33-op alphabet (thorough: 3 from the full 55-op alphabet and 4 from a 16-op core alphabet) of create/drop/fuse/select_subnet/merge_nets/reindex/continuous-index/replace/drop-inactive operations is executed on the real net, deduplicated by a canonical state, and after every operation that returned, every reference held anywhere in the net is resolved against the table it points to; exhaustive within that bound.",
     "note": "Trusted: the reference enumeration in mc/h_c22.py allrefs (which columns/attributes are references). Only dangling references that an operation newly creates are reported (a state that already dangles is still expanded, inherited danglings are counted). Operations that raise are outcomes; the state after a raise is neither judged nor expanded. Targets/lookup values outside the bound alphabet and nets beyond 6(+2) buses are not covered. Recorded defect families are matched by (clause, operation, holder, target, explained=...) signatures.",
     "technique": "explicit-state breadth-first search over operation histories on the real pandapower net with a referential-integrity invariant checked after every transition",
     "design_ref": "DESIGN.md §3 E2, §4 C22",
@@ -41,7 +41,7 @@ class Model:
         return vs
 
 
-BOUNDS = {"quick": [("quick", 3)], "thorough": [("quick", 4), ("thorough", 3)]}
+BOUNDS = {"quick": [("quick", 3)], "thorough": [("thorough", 3), ("core", 4)]}
 
 
 def explore_(tier, seed, rep):
